@@ -51,6 +51,18 @@ Fixpoint b64_encode (b : list N) : str :=
       :: b64_char (z mod 64) :: b64_encode r
   end.
 
+(** no line break in any string or key of a plist value *)
+Definition no_newline (s : str) : bool := negb (existsb (N.eqb 10) s).
+Fixpoint pv_plain (v : pv) : bool :=
+  match v with
+  | PStr s => no_newline s
+  | PArr l => forallb pv_plain l
+  | PDict d =>
+      (fix go (l : dict) : bool :=
+         match l with [] => true | (k, x) :: r => no_newline k && pv_plain x && go r end) d
+  | _ => true
+  end.
+
 Section Encoder.
   (** std / library formatters, not modelled: [f64::to_string], [format!("{:.3}")] of a colour
       channel, [Integer::to_string], [format!("{:04X}")] of a code point *)
@@ -168,9 +180,12 @@ Section Encoder.
                                      (dump1 (cid c) (clib c) acc)) (gcontours g) a2 in
     fold_left (fun acc c => dump1 (coid c) (colib c) acc) (gcomps g) a3.
 
-  Definition enc_lib (g : glyph) : res (list node) :=
+  (** the dictionary handed to the plist printer: the glyph lib plus the object libs *)
+  Definition written_lib (g : glyph) : res dict :=
     bind (dump_object_libs g) (fun ol =>
-      let lib := match ol with [] => glib g | _ => dict_insert objlibs_key (PDict ol) (glib g) end in
+      Ok (match ol with [] => glib g | _ => dict_insert objlibs_key (PDict ol) (glib g) end)).
+  Definition enc_lib (g : glyph) : res (list node) :=
+    bind (written_lib g) (fun lib =>
       match lib with
       | [] => Ok []
       | _ => Ok [Elem (s2l "lib") [] [pv_node (PDict (sort_keys_rec lib))]]
@@ -198,3 +213,28 @@ Section Encoder.
   (** what a reader is given: the declaration and the root element *)
   Definition written_doc (t : node) : doc := [Decl; t].
 End Encoder.
+
+(** ---------- the classes of valid glyphs known not to survive encode-then-parse ---------- *)
+Definition olib_plain (l : option dict) : bool :=
+  match l with Some d => pv_plain (PDict d) | None => true end.
+Definition libs_plain (g : glyph) : bool :=
+  pv_plain (PDict (glib g)) &&
+  forallb (fun a => olib_plain (alib a)) (ganchors g) &&
+  forallb (fun x => olib_plain (gulib x)) (gguides g) &&
+  forallb (fun c => olib_plain (clib c) && forallb (fun p => olib_plain (plib p)) (cpoints c)) (gcontours g) &&
+  forallb (fun c => olib_plain (colib c)) (gcomps g).
+Definition note_survives (n : option str) : bool :=
+  match n with
+  | None => true
+  | Some s => negb (blank s) && str_eqb (trim s) s
+  end.
+(** F3: a line break in lib text (with a non-zero indent width), or a note that is empty or
+    begins or ends with a blank *)
+Definition c02_f3 (o : wopts) (g : glyph) : bool :=
+  (negb (Nat.eqb (o_count o) 0) && negb (libs_plain g)) || negb (note_survives (gnote g)).
+Definition c02_advance_subnormal (g : glyph) : bool :=
+  negb (fl_is_normal (gwidth g) || fl_is_normal (gheight g)) &&
+  (fl_nonzero (gwidth g) || fl_nonzero (gheight g)).
+Definition c02_empty_contour (g : glyph) : bool :=
+  existsb (fun c => match cpoints c with [] => true | _ => false end) (gcontours g).
+
